@@ -583,7 +583,9 @@ def auto_chunks(chunks, shape, limit, dtype, previous_chunks=None):
 
     if previous_chunks:
         # Base ideal ratio on the median chunk size of the previous chunks
-        median_chunks = {a: np.median(previous_chunks[a]) for a in autos}
+        # (zero-width chunks hold no data: counting them would shrink the median,
+        # inflate the multiplier and push the other axes past the limit)
+        median_chunks = {a: np.median([c for c in previous_chunks[a] if c] or previous_chunks[a]) for a in autos}
         result = {}
 
         # How much larger or smaller the ideal chunk size is relative to what we have now
